@@ -115,6 +115,8 @@ def gen_tool(g: G):
             t = {"type": "array", "items": "string", "inputBinding": _binding(g, shell) | {"prefix": g.pick(["-i", "--item", "-I="])}}
             mk = hostile if g.p(0.5) else tame
             val = [mk(g) for _ in range(g.i(0, 3))]
+            if shell and t["inputBinding"].get("shellQuote") is False:
+                val = [g.pick(_SAFE_UNQUOTED) for _ in val]  # unquoted = shell syntax (see below)
         else:
             fields = {}
             val = {}
@@ -126,6 +128,10 @@ def gen_tool(g: G):
                     fd["inputBinding"] = _binding(g, shell)
                 fields[fname] = fd
                 val[fname] = hostile(g) if ft == "string" else (g.i(-2, 50) if ft == "int" else g.p(0.5))
+                if ft == "string" and fd.get("inputBinding", {}).get("shellQuote") is False:
+                    val[fname] = g.pick(_SAFE_UNQUOTED)
+                    if fd["inputBinding"].get("prefix") in ("--q'", "--with space"):
+                        fd["inputBinding"]["prefix"] = "--p"
             t = {"type": "record", "fields": fields}
         if optional:
             vf = None  # valueFrom on a null optional input: the specification is silent
